@@ -75,7 +75,16 @@ def gen_program(rnd, pid, small=False):
             th.append(['sched_abs', c, t, rnd.choice([0, 256, 512, 1024, 4096])])
         else:
             th.append(['sched', c, t, rnd.choice(DELTAS)])
+    oscn = 0
     for i, th in enumerate(threads):
+        if i > 0 and rnd.random() < 0.3:        # the OSC receive thread: incoming datagrams are dispatched via SystemClock
+            for _ in range(rnd.randint(1, 2)):
+                oscn += 1
+                th.insert(rnd.randint(0, len(th)), ['osc', 'sys', '/osc%d' % oscn])
+        for c in tempo:
+            if rnd.random() < 0.06:
+                th.append(['sleep', rnd.choice([128, 1024, 2048])])
+                th.append(['stop', c])
         if rnd.random() < 0.08:
             th.insert(rnd.randint(0, len(th)), ['clear', rnd.choice(clocks)])
         for c in tempo:
